@@ -736,7 +736,7 @@ def xy_twins(ctx, repo, scope=("",), rule="XY-TWIN", _self=False):
                             return n
 
                     tot += 1
-                    if ast.dump(Sw().visit(copy.deepcopy(s1))) != ast.dump(s2):
+                    if ast.dump(Sw().visit(ast.parse(norm(s1)).body[0])) != ast.dump(ast.parse(norm(s2)).body[0]):
                         bad.append(f"`{norm(s1)[:60]}` vs `{norm(s2)[:60]}`")
         if tot:
             ctx.ob(rule, f"{rel}:<module>", f"{tot} x/y twin statement pairs are mirror images", not bad, "; ".join(bad[:2]))
